@@ -661,6 +661,18 @@ func (ce *callEngine) recoverOnCall(ctx context.Context, m *wasm.ModuleInstance,
 	return
 }
 
+// failIfClosed returns the exit error when the module this call was made on has been closed - that is the module
+// closed once the context is done - or when m, the module the running code was entered through, has been. They
+// differ while the guest runs in a function imported from another module that was reached through that module.
+func (ce *callEngine) failIfClosed(m *wasm.ModuleInstance) error {
+	if root := ce.f.moduleInstance; root != m {
+		if err := root.FailIfClosed(); err != nil {
+			return err
+		}
+	}
+	return m.FailIfClosed()
+}
+
 func (ce *callEngine) callFunction(ctx context.Context, m *wasm.ModuleInstance, f *function) {
 	if f.parent.hostFn != nil {
 		ce.callGoFuncWithStack(ctx, m, f)
@@ -719,7 +731,7 @@ func (ce *callEngine) callNativeFunc(ctx context.Context, m *wasm.ModuleInstance
 		// how the stack is modified, etc.
 		switch op.Kind {
 		case operationKindBuiltinFunctionCheckExitCode:
-			if err := m.FailIfClosed(); err != nil {
+			if err := ce.failIfClosed(m); err != nil {
 				panic(err)
 			}
 			frame.pc++
@@ -4334,7 +4346,7 @@ func (ce *callEngine) callNativeFunc(ctx context.Context, m *wasm.ModuleInstance
 			// A cycle of tail calls neither passes a loop header nor grows the call stack,
 			// so the module exit code must be checked here to honour close-on-context-done.
 			if f.parent.ensureTermination {
-				if err := m.FailIfClosed(); err != nil {
+				if err := ce.failIfClosed(m); err != nil {
 					panic(err)
 				}
 			}
@@ -4360,7 +4372,7 @@ func (ce *callEngine) callNativeFunc(ctx context.Context, m *wasm.ModuleInstance
 			}
 
 			if tf.parent.ensureTermination {
-				if err := m.FailIfClosed(); err != nil {
+				if err := ce.failIfClosed(m); err != nil {
 					panic(err)
 				}
 			}
